@@ -158,24 +158,51 @@ def r2(ctx):
             ctx.check(ok, key, f"a CodeNode's lines must be appended once: to unused_lines iff no platform is associated with it in the map OF THE SAME FILE, else to used_lines: {[(e[1], vtext(e[2])) for e in exts]} under {tests}", f.loc(loop))
     if seen != {True, False}:
         raise AnalysisError(f"{f.key}: used/unused partition idiom not recognised ({seen})")
-    # entry: file path and digest refer to the same file
-    opens = [w for w in ast.walk(loop) if isinstance(w, ast.With) and any(isinstance(i.context_expr, ast.Call) and u(i.context_expr.func) == "open" for i in w.items)]
-    ok = len(opens) == 1
-    if ok:
-        oc = opens[0].items[0].context_expr
-        ok = u(oc.args[0]) == fv and len(oc.args) > 1 and u(oc.args[1]) == "'rb'" and "hashlib.file_digest" in u(opens[0].body) and "'sha512'" in u(opens[0].body)
-    ctx.soft(ok, f"{f.key}:id-is-sha512-of-file", "the entry's id must be the sha512 of the bytes of the file it names (opened 'rb')", f.loc(loop))
-    app = [c for c in ast.walk(loop) if isinstance(c, ast.Call) and u(c.func) == "covarray.append"]
-    ok = len(app) == 1 and isinstance(app[0].args[0], ast.Dict)
-    if ok:
-        d = {k.value: u(v) for k, v in zip(app[0].args[0].keys, app[0].args[0].values)}
-        ok = d.get("used_lines") == "used_lines" and d.get("unused_lines") == "unused_lines" and d.get("id") == "digest.hexdigest()" and d.get("file") == "relative_path"
-        rel = [s for s in ast.walk(loop) if isinstance(s, ast.Assign) and u(s.targets[0]) == "relative_path"]
-        ok = ok and len(rel) == 1 and u(rel[0].value) == f"os.path.relpath({fv}, start=source_dir)"
-    ctx.soft(ok, f"{f.key}:entry-fields", "each file contributes one entry {file: path relative to the source dir, id, used_lines, unused_lines}", f.loc(loop))
-    # fresh lists per file
-    fresh = [s for s in loop.body if isinstance(s, ast.Assign) and u(s.targets[0]) in ("used_lines", "unused_lines") and isinstance(s.value, ast.List) and not s.value.elts]
-    ctx.soft(len(fresh) == 2, f"{f.key}:fresh-lists-per-file", "used_lines / unused_lines must be re-created for every file", f.loc(loop))
+    # entry: one record per (non-skipped) file; path and digest refer to that same file (decision table)
+    from ..spec import appended, call_args, dict_fields, tab, vt
+    from ..flow import loop_carried
+
+    n_entries = 0
+    for p in tab(f, unroll=1):
+        files = [(m.group(1), f"{m.group(1)}[0]") for k, v in p.atoms.items() for m in [re.match(r"more\((.+)#L\d+,0\)$", k)] if m and v and not m.group(1).endswith(".walk()")]
+        if not files:
+            continue
+        cb, F = files[0]
+        skipped = p.atoms.get(f"Path({F}).is_symlink()") and p.atoms.get(f"Path({F}).resolve() In {cb}")
+        recs = [t for t in appended(p, "covarray") if t.startswith("dict:")]
+        key = f"{f.key}:entry-fields:skipped={int(bool(skipped))}"
+        if skipped:
+            ctx.check(not recs, key, "a skipped link still contributes a record", f.loc())
+            continue
+        n_entries += 1
+        ok = len(recs) == 1
+        why = f"{len(recs)} records for one file"
+        if ok:
+            rec = recs[0]
+            flds = dict_fields(rec)
+            if flds is None or "file" not in flds or "id" not in flds:
+                raise AnalysisError(f"{f.key}: record layout not recognised: {rec[:160]}")
+            rp = call_args(flds["file"], "os.path.relpath")
+            if rp is None or not rp[0]:
+                raise AnalysisError(f"{f.key}: 'file' is not an os.path.relpath(...) value: {flds['file'][:100]}")
+            if rp[0][0] != F:
+                ok, why = False, f"'file' is derived from `{rp[0][0][:60]}`, not from the file being processed"
+            want_id = f"hashlib.file_digest(with(open({F}, 'rb')), 'sha512').hexdigest()"
+            if ok and flds["id"] != want_id:
+                ok, why = False, f"'id' is `{flds['id'][:100]}`; it must be the sha512 of the bytes of the same file: `{want_id}`"
+            if ok and not ("'used_lines':" in rec and "'unused_lines':" in rec):
+                ok, why = False, "the record lacks used_lines / unused_lines"
+        ctx.check(ok, key, f"each file contributes one record {{file: path relative to the source dir, id: sha512 of that file, used_lines, unused_lines}}: {why}", f.loc())
+    if not n_entries:
+        raise AnalysisError(f"{f.key}: no path appends a record to covarray")
+    # fresh lists per file: nothing but the result list is carried from one file to the next
+    carried, cfg = loop_carried(f, loop)
+    for name in sorted(carried):
+        if name == "covarray":
+            continue
+        d, use = carried[name][0]
+        ctx.violation(f"{f.key}:fresh-lists-per-file:{name}", f"`{name}` set at `{u(cfg.nodes[d].ast)[:60]}` for one file is still in effect at `{u(cfg.nodes[use].ast)[:60]}` for the next file: lines of one file leak into another's record", f.loc(cfg.nodes[use].ast))
+    ctx.ok(f"{f.key}:fresh-lists-per-file")
     ctx.floor(4)
 
 
